@@ -336,20 +336,21 @@ func (p *parserDoer) onEntries(labels [][]string, timestampsNS []int64,
 	}
 
 	for d := range dates {
-		if maybeAddFp(d, fp, p.ctx.fpCache) {
-			_labels := encodeLabels(labels)
-			for t, _ := range tps {
-				if !tps[t] {
-					continue
-				}
-
-				p.tsSpl.ts.MDate = append(p.tsSpl.ts.MDate, d)
-				p.tsSpl.ts.MLabels = append(p.tsSpl.ts.MLabels, _labels)
-				p.tsSpl.ts.MFingerprint = append(p.tsSpl.ts.MFingerprint, fp)
-				p.tsSpl.ts.MType = append(p.tsSpl.ts.MType, uint8(t))
-				p.tsSpl.ts.MTTLDays = append(p.tsSpl.ts.MTTLDays, ttlDays)
-				p.tsSpl.ts.Size += 14 + len(_labels)
+		_labels := ""
+		for t, _ := range tps {
+			// series rows are written and selected per sample type, so is the announcement cache
+			if !tps[t] || !maybeAddFp(d, fp, uint8(t), p.ctx.fpCache) {
+				continue
 			}
+			if _labels == "" {
+				_labels = encodeLabels(labels)
+			}
+			p.tsSpl.ts.MDate = append(p.tsSpl.ts.MDate, d)
+			p.tsSpl.ts.MLabels = append(p.tsSpl.ts.MLabels, _labels)
+			p.tsSpl.ts.MFingerprint = append(p.tsSpl.ts.MFingerprint, fp)
+			p.tsSpl.ts.MType = append(p.tsSpl.ts.MType, uint8(t))
+			p.tsSpl.ts.MTTLDays = append(p.tsSpl.ts.MTTLDays, ttlDays)
+			p.tsSpl.ts.Size += 14 + len(_labels)
 		}
 	}
 
@@ -498,11 +499,12 @@ func withPayloadType(tp int8) buildOption {
 	}
 }
 
-func maybeAddFp(date time.Time, fp uint64, fpCache numbercache.ICache[uint64]) bool {
+func maybeAddFp(date time.Time, fp uint64, tp uint8, fpCache numbercache.ICache[uint64]) bool {
 	dateTS := date.Unix()
-	var bs [16]byte
+	var bs [17]byte
 	copy(bs[0:8], unsafe.Slice((*byte)(unsafe.Pointer(&dateTS)), 16))
 	copy(bs[8:16], unsafe.Slice((*byte)(unsafe.Pointer(&fp)), 16))
+	bs[16] = tp
 	_fp := city.CH64(bs[:])
 	return !fpCache.CheckAndSet(_fp)
 }
